@@ -8,8 +8,8 @@ cd /verif || exit 2
 for d in seeded/$G/; do
   id=$(basename $d); [ -f $d/patch.diff ] || continue
   P=$(python3 -c "import json;print(json.load(open('$d/meta.json'))['property'])")
-  if ! git -C /repo apply --check $d/patch.diff 2>/dev/null; then echo "$id: patch no longer applies (code changed by a fix)"; continue; fi
-  git -C /repo apply $d/patch.diff
+  if ! git -C /repo apply --check /verif/$d/patch.diff 2>/dev/null; then echo "$id: patch no longer applies (code changed by a fix)"; continue; fi
+  git -C /repo apply /verif/$d/patch.diff
   cp evidence/$P.json /tmp/evidence_$P.bak 2>/dev/null
   ./check $P > $d/check_with.log 2>&1; E=$?
   git -C /repo checkout -q -- .
